@@ -3,6 +3,7 @@ mod corpus;
 mod dev;
 mod dl;
 mod framework;
+mod gen;
 mod mon;
 mod reflua;
 mod rng;
@@ -30,6 +31,7 @@ fn run_with_big_stack<T: Send + 'static>(f: impl FnOnce() -> T + Send + 'static)
 
 fn main() {
     let args: Vec<String> = std::env::args().collect();
+    framework::install_panic_hook();
     if args.len() < 2 {
         usage();
     }
